@@ -282,6 +282,22 @@ def run(ctx):
     ctx.sample({'events': ops[-3]['events'], 'finalize': ops[-3]['finalize'], 'observed': impl[-3]}, limit=3)
     common.compare(ctx, 'cause', ops, impl, what='Agent_0 cause -> killme.signal -> bootstrap_0.sh (exhaustive, len<=4)')
     ctx.exhaustive = False
+    # -- the task manager scheduler's view of pilot states (tmgr/scheduler/base.py: _update_pilot_states,
+    #    add_pilots): whatever the order of state notifications and add_pilots messages (whose pilot dict
+    #    may be an older snapshot), the tracked state never moves backwards and never leaves a final state
+    from props import c12
+    nviol = 0
+    for i in range(ctx.n(150, 4000)):
+        kind = 'bf' if i % 2 else 'rr'
+        script = c12.gen_script(ctx.rng, kind)
+        ops2, res2, viol2, s2 = c12.run_script(rp, kind, script)
+        ctx.case({'tmgr_sched': kind, 'ops': len(script)}, nontrivial=any(o['op'] == 'pilot_state' for o in script))
+        for sig, what in viol2:
+            if sig == 'pilot-state-moved-backwards':
+                nviol += 1
+                ctx.fail('tmgr-scheduler:' + sig, what, {'kind': 'tmgr_sched', 'sched': kind, 'ops': script})
+                break
+    ctx.obligation('tmgr scheduler: tracked pilot states monitored on the real RoundRobin / Backfilling objects', 'tie', True, '')
     ctx.rule = ('exhaustive: all pilot state pairs; all notification streams of length <=2 (quick) / <=3 (thorough) from every '
                 'start state; all agent event sequences of length <=4 over {lifetime, cancel naming the pilot, foreign cancel, '
                 'terminate} x {finalize runs, agent dies before}; sampled: random streams of length 3-9; '
@@ -295,7 +311,11 @@ def run(ctx):
 def replay(ctx, data):
     rp  = rpload.load()
     inp = data['input']
-    if inp['kind'] == 'pilot':
+    if inp['kind'] == 'tmgr_sched':
+        from props import c12
+        _, res, viol, _ = c12.run_script(rp, inp['sched'], inp['ops'])
+        bad = [v for v in viol if v[0] == 'pilot-state-moved-backwards']
+    elif inp['kind'] == 'pilot':
         state, cbs, mcbs, errs = run_pilot(rp, inp['cur'], inp['seq'])
         bad = monitor_pilot(rp, inp['cur'], inp['seq'], state, cbs, mcbs, errs)
     else:
